@@ -328,6 +328,20 @@ chk("C23", "model_checking",
     "DESIGN.md section 4, C23")
 
 
+chk("C24", "model_checking",
+    "spec/Cli.tla defines Argv(mode, path, args) and Echo(program) - what -c prints in addition, decided by the "
+    "reference semantics from the final expression statement's value. Random programs printing their observations, "
+    "with 9 kinds of final statement, x 10 argument vectors (none, one, several, empty string, non-ASCII, dash-prefixed "
+    "after --) are run by the real binary from a script file, with -c, and from a script file with a shebang line; TLC "
+    "validates stdout(-c) = stdout(file) + Echo, equal stderr, shebang run = plain run with line numbers shifted by "
+    "one, and the argv each run printed = Argv.",
+    "The text of the echo is fixed only for integer and boolean values (other kinds: exactly one line); after a final "
+    "statement that is not an expression statement an echo line is accepted. Maps in printed values have at most one "
+    "entry (display order of maps is not settled).",
+    "TLA+ definition of the mode relation evaluated by TLC over recorded runs of the real binary in all three modes",
+    "DESIGN.md section 4, C24")
+
+
 def main():
     props = [json.loads(l)["id"] for l in open(os.path.join(VERIF, "properties.jsonl"))]
     na = [{"property_id": p, "reason": NOT_APPLICABLE.get(p, "check not built yet in this round (planned, see DESIGN.md section 8)")}
